@@ -26,6 +26,8 @@ model's `get` / `seekObs`; writes touch the node itself, flushes the node and it
   pend <id>                                 -> ok alias=0        step 3 (success); alias: are the store's maps the map
   pfail <id>                                -> ok alias=1        objects the tempstore held (Model/Store/Locks.lean)
                                                      step 3 (PutChangeSet failed; nothing written)
+  seekaw <id> <pfx> <start> <bw> <depth> <cut> <lim> (<key> <val|nil>)*  -> <n> k:v ...   SeekAsync, then the caller
+                                                     writes to the same store, then reads: the answer as of the call
   overlap <id> <sync> <window>              -> blocked           a second PersistSync / Persist started while the
                                                      stepwise one is in flight has to wait for plock
   ppriv <id> <p>*                           -> <n>
@@ -37,6 +39,7 @@ import NeoModel.Model.Store.Window
 import NeoModel.Model.Store.GC
 import NeoModel.Model.Store.Locks
 import NeoModel.Model.Store.Flush
+import NeoModel.Model.Store.Async
 open NeoModel NeoModel.Store
 
 inductive HNode where
@@ -348,6 +351,17 @@ def stepSt (st : St) (ws : List String) : St × String :=
       let alt := showKVs (pd.s0.seekSplit (st.h.viewOf pd.id) pd.rng pd.cut pd.lim)
       let applies := pd.id == pd.hold && st.h.tempsThenBase st.temps (st.h.length + 1) pd.psId
       ({ st with pend := none }, if applies && alt != res then res ++ " SPLIT-MODEL-DIFFERS " ++ alt else res)
+  | "seekaw" :: id :: pfx :: start :: bw :: depth :: cut :: lim :: rest =>
+    -- SeekAsync on store <id>, then the caller's writes to the same store, then the reads (Model/Store/Async.lean)
+    match id.toNat?, Hex.decode pfx, Hex.decode start, depth.toNat?, lim.toNat?, parseCS rest with
+    | some i, some p, some s, some d, some l, some ws =>
+      match st.h.find i with
+      | some (.cached L ps) =>
+        let rng : SeekRange := { pfx := p, start := s, bw := parseBool bw, depth := d }
+        let (got, L') := seekAsyncThenWrites L (st.h.viewOf ps) rng (parseBool cut) l ws
+        ({ st with h := st.h.set i (.cached L' ps) }, showKVs got)
+      | _ => (st, "bad-op")
+    | _, _, _, _, _, _ => (st, "bad-op")
   | ["overlap", _, sync, win] =>
     -- a second flush started while a Persist of this store is in flight: can it get in? (Model/Store/Flush.lean)
     match win.toNat? with
